@@ -369,7 +369,7 @@ def run(ck, repo: Repo, tier: str):
         at = rcfg.node_of(rets[0].ast).id
         ts, tu = res.resolve(rv.elts[0], mi, rcfg, at), res.resolve(rv.elts[1], mi, rcfg, at)
         ok = ts is not None and ts.qual == CS and tu is not None and tu.qual == CU
-        if ts is None or tu is None:
+        if ts is None or tu is None or not ts.qual or not tu.qual or "<locals>" in ts.qual or "<locals>" in tu.qual:
             raise AnalysisError(f"{q}: the returned planner functions `{short(rv, 60)}` cannot be resolved (unrecognised form)")
         ck.ob("R5-planning-chain", q, "sample/update-functions", ok, f"({ts.qual if ts else None}, {tu.qual if tu else None})", "" if ok else "PETS must plan with cem_sample / cem_update", loc(mi, fn))
         if ok:
